@@ -38,7 +38,8 @@ type Request struct {
 }
 
 func newRequest(msg message.Message) *Request {
-	return &Request{msg: msg, reply: make(chan message.Message)}
+	// one slot: a response never blocks the receive loop, whether or not the requester is waiting yet
+	return &Request{msg: msg, reply: make(chan message.Message, 1)}
 }
 
 func (r *Request) GetResponse(done <-chan struct{}, respDuration time.Duration) (message.Message, bool) {
@@ -155,6 +156,8 @@ func (pConn *PFCPConn) SendPFCPMsg(msg message.Message) {
 
 func (pConn *PFCPConn) sendPFCPRequestMessage(r *Request) (message.Message, bool) {
 	pConn.pendingReqs.Store(r.msg.Sequence(), r)
+	// the exchange ends here: a response arriving later finds nothing to answer
+	defer pConn.pendingReqs.Delete(r.msg.Sequence())
 
 	pConn.SendPFCPMsg(r.msg)
 	retriesLeft := pConn.upf.maxReqRetries
